@@ -1,5 +1,5 @@
 From Coq Require Import List NArith Bool.
-From STH Require Import Lex Index Index2 Index3 Store Translate Check Crash.
+From STH Require Import Lex Index Index2 Index3 Store Translate Check Crash Iterate.
 Import ListNotations.
 Open Scope N_scope.
 
@@ -8,8 +8,15 @@ Open Scope N_scope.
    file images.  [replay5] runs the model on the same operations and returns the index of the first
    observation on which model and implementation differ. *)
 Inductive zop := ZX (x : xop) | ZTranslate (order0 : list N) (newbits : N) (order : list N)
-               | ZCrash (done : list N) (gets : list (bytes * out)).
-Notation YX := ZX. Notation YTranslate := ZTranslate. Notation YCrash := ZCrash.
+               | ZCrash (done : list N) (gets : list (bytes * out))
+               | ZIter (items : list (bytes * bytes)).
+Notation YX := ZX. Notation YTranslate := ZTranslate. Notation YCrash := ZCrash. Notation YIter := ZIter.
+Fixpoint kvs_eqb (a b : list (bytes * bytes)) : bool :=
+  match a, b with
+  | [], [] => true
+  | (k, v) :: a', (k', v') :: b' => beq k k' && beq v v' && kvs_eqb a' b'
+  | _, _ => false
+  end.
 Fixpoint replay5 (s : store) (l : list (zop * xout)) (i : N) : option N :=
   match l with
   | [] => None
@@ -17,6 +24,9 @@ Fixpoint replay5 (s : store) (l : list (zop * xout)) (i : N) : option N :=
       (* hypothetical: the process dies inside the NEXT Flush after the index records of [done]; recovery by rescan *)
       let r := recover (flush_cut s done) in
       if forallb (fun kg => out_eqb (snd (step r (OGet (fst kg)))) (snd kg)) gets then replay5 s l' (i + 1) else Some i
+  | (ZIter items, _) :: l' =>
+      (* whole-store iteration (the flush it starts with is a separate OFlush observation): same bindings in the same order *)
+      if kvs_eqb (iterate s) items then replay5 s l' (i + 1) else Some i
   | (ZTranslate o0 nb o1, XR ROk) :: l' =>
       match reopen_translate s o0 nb o1 with Some s' => replay5 s' l' (i + 1) | None => Some i end
   | (ZTranslate _ _ _, _) :: _ => Some i
